@@ -30,6 +30,7 @@ import selectors
 import sys
 import time as _time
 
+_REAL_TIME, _REAL_SLEEP = _time.time, asyncio.sleep
 EPOCH = 1_000_000          # virtual epoch in seconds (small: see memory/asyncfix-harness-pitfalls)
 Q = 125                    # time quantum in ms (1/8 s: exact in binary floating point)
 
@@ -400,6 +401,16 @@ def run_impl(case):
     import heapq
 
     hb = case["hb"]
+    if case.get("tag") == "ctor":
+        try:
+            Driver(hb, globals()["T0"], {"state": 6, "mlt": 0}).close()
+            return {"ctor": "accepted"}
+        except ValueError:
+            return {"ctor": "refused"}
+        finally:
+            _time.time = _REAL_TIME
+            asyncio.sleep = _REAL_SLEEP
+            asyncio.set_event_loop(None)
     T0 = case.get("t0", globals()["T0"])      # epoch override: only the one-off "first second of the epoch" probe uses it
     d = Driver(hb, T0, case.get("init", "logon"))
     res = {"events": [], "rows": [], "note": ""}
@@ -612,6 +623,8 @@ def oracle(case, res):
             if o[0] == 0 and o[1] == 1:
                 src = {0: "tick", 2: "probe", 3: "raw"}.get(e[0], "recv")
                 probes.append({"i": i, "t": t, "rid": _txt(o[2]), "src": src})
+                if any(r[0] == _txt(o[2]) for r in outstanding):
+                    continue                      # the pending probe sent again under its own id: still one TestReqID
                 outstanding.append((_txt(o[2]), src))
                 if len(outstanding) > max_out[0]:
                     max_out = (len(outstanding), (t, src, list(outstanding)))
@@ -628,15 +641,14 @@ def oracle(case, res):
     if max_out[0] > 1:
         t, src, lst = max_out[1]
         facts["double"] = lst
-        out.append(("%d TestRequests outstanding at t=%d: %r" % (max_out[0], t, lst),
-                    classify("raw-testrequest-while-pending", facts)))
+        out.append(("%d TestRequests outstanding at t=%d: %r" % (max_out[0], t, lst), None))
     disc_t = disc[1] if disc else None
     refs = [(-1, T0)] + [(i, t) for (i, t, _, _, _) in inbound]
     in_times = [t for (_, t, _, _, _) in inbound]                 # anything received
     seq_times = [t for (_, t, _, _, dd) in inbound if dd == 0]     # in-sequence (finalized) messages only
 
     def active_throughout(a, b):
-        return all(snap[0] == ACTIVE for (e, (_, snap)) in zip(events, rows) if a <= e[1] <= b)
+        return all(snap[0] in (ACTIVE, AWAITING) for (e, (_, snap)) in zip(events, rows) if a <= e[1] <= b)
     timer_on = ticks[0] if ticks else None
 
     def silent(a, b):          # no inbound in (a, b]
@@ -677,19 +689,22 @@ def oracle(case, res):
                                 % (p["t"], last, hb - 1), None))
     # --- a live peer is never disconnected by the watchdog --------------------------------------
     if disc is not None and disc[2] == 0:
-        D = max(2 * hb - 1, 0) * 1000
+        # a watchdog probe must be answered within 2*hb - 1 s; a probe the application sent itself (send_test_req())
+        # does not restart the silence clock, so only an answer within hb s is certain to be in time
+        def due(p):
+            return p["t"] + (hb if p["src"] == "probe" else max(2 * hb - 1, 0)) * 1000
+
         late = [p for p in probes if p["i"] <= disc[0] and not (
-            (answered(p, disc[0]) is not None and answered(p, disc[0]) <= p["t"] + D) or disc_t <= p["t"] + D)]
+            (answered(p, disc[0]) is not None and answered(p, disc[0]) <= due(p)) or disc_t <= due(p))]
         L1 = not late
         gaps_from = [T0] + [t for (i, t, _, _, dd) in inbound if i < disc[0] and dd == 0]
         L2 = all(b - a <= H for a, b in zip(gaps_from, gaps_from[1:] + [disc_t]))
         facts.update(wd_disc=disc_t, answered_all=L1, traffic_continues=L2,
                      awaiting_at_disc=(pre_states[disc[0]] == AWAITING), since_last_in_sequence=disc_t - gaps_from[-1],
                      never_answered=[p for p in late if answered(p, disc[0]) is None],
-                     overdue=[p for p in late if disc_t > p["t"] + D])
+                     overdue=[p for p in late if disc_t > due(p)])
         if L1 or L2:
-            cls = (classify("hb0-immediate-disconnect", facts) or classify("unanswered-probe-while-traffic-continues", facts)
-                   or classify("unfilled-gap-dropped-unprobed", facts))
+            cls = None                              # no known-finding class is open (R13a-R13d repaired the four)
             why = ("every TestRequest was answered in time (or still had time)" if L1 else
                    "valid traffic never paused longer than %d s (unanswered: %r)" % (hb, [(p["t"], p["rid"]) for p in late]))
             out.append(("watchdog disconnected the peer at t=%d although %s" % (disc_t, why), cls))
@@ -705,45 +720,13 @@ def oracle(case, res):
 # ----------------------------------------------------------------------------------------------
 # Each predicate is decided on facts the oracle computed from the observed run (never on the model).
 
-def kf_unanswered_probe(f):
-    """An outstanding TestRequest is never answered while valid traffic continues: hb >= 1; the run ends in a
-    watchdog disconnect; until then no two consecutive valid inbound messages (nor the last one and the
-    disconnect) are more than hb s apart; and a TestRequest written before the disconnect has no Heartbeat
-    echoing its id at all although more than 2*hb - 1 s have passed since it was written."""
-    return (f["hb"] >= 1 and f.get("wd_disc") is not None and f.get("traffic_continues") is True
-            and not f.get("answered_all") and any(p in f.get("overdue", []) for p in f.get("never_answered", [])))
-
-
-def kf_hb0(f):
-    """hb = 0 and the watchdog dropped a peer that had no time at all to answer."""
-    return f["hb"] == 0 and f.get("wd_disc") is not None and f.get("answered_all") is True
-
-
-def kf_raw(f):
-    """More than one TestRequest outstanding and every one but the first was put on the wire by an application
-    call of send_msg(TestRequest) while the first was pending."""
-    lst = f.get("double") or []
-    return len(lst) > 1 and all(r[1] == "raw" for r in lst[1:])
-
-
-def kf_unfilled_gap(f):
-    """The watchdog dropped the peer while a ResendRequest was unanswered (state RESENDREQ_AWAITING), every TestRequest
-    had been answered in time (possibly none was ever sent: outside ACTIVE the watchdog does not probe), and the last
-    in-sequence message was more than 2*hb s old."""
-    return (f["hb"] >= 1 and f.get("wd_disc") is not None and f.get("awaiting_at_disc") is True
-            and f.get("answered_all") is True and f.get("since_last_in_sequence", 0) > 2 * f["hb"] * 1000)
-
-
-CLASSES = {
-    "unfilled-gap-dropped-unprobed": kf_unfilled_gap,
-    "unanswered-probe-while-traffic-continues": kf_unanswered_probe,
-    "hb0-immediate-disconnect": kf_hb0,
-    "raw-testrequest-while-pending": kf_raw,
-}
+# The four classes of the unrepaired library (unanswered-probe-while-traffic-continues, hb0-immediate-disconnect,
+# raw-testrequest-while-pending, unfilled-gap-dropped-unprobed) were repaired by R13a-R13d: no class is open.
+CLASSES = {}
 
 
 def classify(cls, facts):
-    return cls if CLASSES[cls](facts) else None
+    return cls if cls in CLASSES and CLASSES[cls](facts) else None
 
 
 # ----------------------------------------------------------------------------------------------
@@ -878,10 +861,9 @@ def gen_cases(rng, tier_all):
         for stt in (6, 7, 8):
             add("nonactive", hb, rng.choice(phases_all), 3 * H + 3000, (), None, 0,
                 {"state": stt, "mlt": rng.choice([0, T0, T0 - q(rng.randrange(0, 2 * H))])})
-    # hb = 0 examined separately (FIX: "no heartbeats"); the watchdog probes and disconnects at once
-    for ph in ([0, 125, 500, 1000] if not tier_all else phases_all):
-        add("hb0", 0, ph, 4000, (), {"delay": 0, "mode": "match", "limit": None})
-        add("hb0", 0, ph, 4000, [(Q * k, "recv", 2, None) for k in range(1, 30)], None)
+    # heartbeat intervals below 1 s make no sense for this watchdog (probe threshold hb - 1 < 0): the constructor refuses them
+    for bad in (0, -1, 0.5):
+        cases.append({"tag": "ctor", "hb": bad, "phase": 0, "end": 0, "script": [], "policy": None, "tie": 0, "init": "logon"})
     return cases
 
 
@@ -1036,6 +1018,13 @@ def check_case(ctx, case, res, model_rows):
             return
         ctx.fail(slim(case), "implementation run failed: " + res["error"][:600], None)
         return
+    if "ctor" in res:
+        ctx.case(("ctor", case["hb"]), False)
+        ctx.count("tag:ctor")
+        if res["ctor"] != "refused":
+            ctx.fail({"case": slim(case)}, "the constructor accepts heartbeat_period = %r: the watchdog would probe at once and "
+                     "give the peer no time to answer" % (case["hb"],), None)
+        return
     ctx.case(canon(case, res), is_nontrivial(res),
              sample={"case": slim(case), "events": res["events"][:6], "rows": res["rows"][:6]} if len(ctx.samples) < 3 and is_nontrivial(res) else None)
     ctx.traces += 1
@@ -1087,7 +1076,7 @@ def run(ctx):
     ctx.extra["impl_wall_s"] = round(_time.time() - t_start, 1)
     model_out = [None] * len(cases)
     if ctx.model:
-        idx = [i for i, r in enumerate(results) if "error" not in r]
+        idx = [i for i, r in enumerate(results) if "error" not in r and "ctor" not in r]
         outs = ctx.model.batch([model_request(cases[i], results[i]) for i in idx])
         for i, o in zip(idx, outs):
             model_out[i] = o
